@@ -45,7 +45,7 @@ def jobs(tier, seed):
             out.append({'name': 'astar-3x3-c%d-%d%d-%d%d' % (conn, s[0], s[1], g[0], g[1]), 'kind': 'astar', 'shape': [3, 3], 'start': list(s), 'goal': list(g),
                         'conn': conn, 'snap': [False, False], 'barrier': False})
     # integer surfaces (the accumulated cost must stay floating point): crossability = "not a listed barrier value"
-    for (s_, g_) in (((0, 0), (2, 2)), ((2, 0), (0, 2)), ((1, 0), (1, 2))):
+    for (s_, g_) in (((0, 0), (2, 2)), ((2, 0), (0, 2)), ((1, 0), (1, 2)), ((2, 2), (2, 0)), ((0, 1), (2, 1)), ((0, 2), (2, 0))):
         for dt in ('int32', 'uint8'):
             out.append({'name': 'astar-3x3-c8-%s-%d%d-%d%d' % (dt, s_[0], s_[1], g_[0], g_[1]), 'kind': 'astar', 'shape': [3, 3], 'start': list(s_), 'goal': list(g_),
                         'conn': 8, 'snap': [False, False], 'barrier': True, 'dtype': dt})
